@@ -88,7 +88,7 @@ def generate(streams, tier):
         if rw.random() < 0.55:
             ops.append({"op": "pc", "variant": rw.choice(["orig", "stable", "parallel"]), "ci": rw.choice(["match", "callable"]),
                         "return_type": rw.choice(["skeleton", "pdag", "cpdag", "dag"]), "n_jobs": rw.choice([1, 2, -1]), "jobseed": rw.randrange(2**31),
-                        "build": rw.choice(["at_once", "stepwise"]),
+                        "build": rw.choice(["at_once", "stepwise"]), "max_cond": rw.choice(["n", "max_degree", "max_degree"]),
                         "col_order": shuffled(rw, range(n))})
         else:
             # PDAG extension: a CPDAG of a random DAG, possibly with extra orientations / de-orientations
@@ -175,7 +175,17 @@ def _pc(case, ctx, op, n, edges, labels, lab2idx):
     ctx.event("pc", op["variant"], op["ci"], op["return_type"], op["n_jobs"])
     ctx.fault("option_swarm")
     try:
-        res = est.estimate(variant=op["variant"], ci_test=ci, max_cond_vars=n, return_type=op["return_type"], n_jobs=op["n_jobs"], show_progress=False)
+        # the bound on the conditioning-set size: generous (n) or exactly the largest degree of the true skeleton, the smallest
+        # value for which the property claims exactness
+        mcv = n
+        if op.get("max_cond") == "max_degree":
+            deg = {v: 0 for v in range(n)}
+            for a, b in edges:
+                deg[a] += 1
+                deg[b] += 1
+            mcv = max(deg.values()) if deg else 0
+            ctx.probe("max_cond_vars_at_boundary")
+        res = est.estimate(variant=op["variant"], ci_test=ci, max_cond_vars=mcv, return_type=op["return_type"], n_jobs=op["n_jobs"], show_progress=False)
     except Exception as e:
         ctx.fail("succeeds", f"{PROP}:raise:pc:{type(e).__name__}:{exc_site(e)}", {"exc": exc_brief(e), "variant": op["variant"], "return_type": op["return_type"]})
         return
